@@ -80,6 +80,9 @@ type endpoint struct {
 	encBuf bytes.Buffer
 	dec    *hpack.Decoder // this endpoint's decoder (of what the relay sends)
 	decMax uint32
+	// encAllowed: the HEADER_TABLE_SIZE this endpoint's encoder has applied (the largest size it may
+	// signal: RFC 7541 4.2); a setting it has not applied yet does not bind it (RFC 7540 6.5.3)
+	encAllowed uint32
 
 	mu     sync.Mutex
 	cond   *sync.Cond
@@ -144,7 +147,7 @@ func (e *endpoint) wireCheck(g *Frame) {
 }
 
 func newEndpoint(side string, conn net.Conn) *endpoint {
-	e := &endpoint{side: side, conn: conn, decMax: 4096}
+	e := &endpoint{side: side, conn: conn, decMax: 4096, encAllowed: 4096}
 	e.cond = sync.NewCond(&e.mu)
 	e.fr = http2.NewFramer(conn, conn)
 	e.fr.AllowIllegalReads = true // the endpoint judges frame order itself
@@ -277,12 +280,21 @@ type dirState struct {
 	got  map[uint32][]byte
 	// late table-size application pending on the sender
 	lateTable *uint32
+	// relayDec is kept the way the unchanged relay keeps the decoder of this direction (newRelay,
+	// updateTableSize, decodeFull): hpack.NewDecoder(4096), the limit on dynamic table size updates
+	// lifted, the table size set to every HEADER_TABLE_SIZE value of Y the moment the relay reads it;
+	// it is fed every block X completes.  What it says is the expectation for the block: a list - the
+	// relay has to deliver it - or the error the recorded class F15 consists of.  nil once it failed.
+	relayDec  *hpack.Decoder
+	fullBlock []byte // the whole block being sent
 }
 
 func newDirState() *dirState {
 	d := &dirState{mirrorBlocks: map[uint32][][]byte{}, matched: map[uint32]int{}, sent: map[uint32][]byte{}, got: map[uint32][]byte{}}
 	d.mirror = hpack.NewEncoder(&d.mirrorBuf)
 	d.mirror.SetMaxDynamicTableSizeLimit(math.MaxUint32)
+	d.relayDec = hpack.NewDecoder(4096, nil)
+	d.relayDec.SetAllowedMaxDynamicTableSize(math.MaxUint32)
 	return d
 }
 
@@ -405,6 +417,10 @@ func NewRunnerFor(p Params) (*Runner, error) {
 	}
 	sconn.SetReadDeadline(time.Time{})
 	r.c, r.s = newEndpoint("c", cHarness), newEndpoint("s", sconn)
+	if p.TblAdopt {
+		r.c.enc.SetMaxDynamicTableSizeLimit(math.MaxUint32)
+		r.s.enc.SetMaxDynamicTableSizeLimit(math.MaxUint32)
+	}
 	if p.E2E != nil || p.Conc > 0 {
 		r.c.recordWire, r.s.recordWire = true, true
 	}
@@ -482,6 +498,7 @@ func (r *Runner) write(op *Op) error {
 func (r *Runner) writeTo(fr *http2.Framer, op *Op) error {
 	self, _, out, in, _, _ := r.ep(op.Side)
 	op.EH, op.FragLen, op.ReencLen, op.ListID = false, 0, 0, 0
+	op.SizeUpd, op.DecErr = nil, ""
 	switch op.Kind {
 	case "data":
 		payload := dataBytes(op.DataSeed, op.Len)
@@ -493,6 +510,13 @@ func (r *Runner) writeTo(fr *http2.Framer, op *Op) error {
 	case "hdr", "pp":
 		// a late table-size application takes effect after this block
 		fields := hpackFields(op.Fields)
+		if op.TblUpd != nil {
+			v := *op.TblUpd
+			if v > self.encAllowed {
+				v = self.encAllowed
+			}
+			self.enc.SetMaxDynamicTableSize(v)
+		}
 		self.encBuf.Reset()
 		for _, f := range fields {
 			if err := self.enc.WriteField(f); err != nil {
@@ -501,9 +525,11 @@ func (r *Runner) writeTo(fr *http2.Framer, op *Op) error {
 		}
 		if out.lateTable != nil {
 			self.enc.SetMaxDynamicTableSize(*out.lateTable)
+			self.encAllowed = *out.lateTable
 			out.lateTable = nil
 		}
 		out.block = append([]byte(nil), self.encBuf.Bytes()...)
+		out.fullBlock = out.block
 		out.fields = fields
 		out.blockList = r.listID(fields)
 		out.blockPush = op.Kind == "pp"
@@ -574,6 +600,10 @@ func (r *Runner) writeTo(fr *http2.Framer, op *Op) error {
 			if http2.SettingID(kv[0]) == http2.SettingHeaderTableSize {
 				// the relay applies it to its encoder towards this endpoint (mirrored) …
 				in.mirror.SetMaxDynamicTableSize(kv[1])
+				// … and to its decoder of the other endpoint's blocks, at once
+				if in.relayDec != nil {
+					in.relayDec.SetMaxDynamicTableSize(kv[1])
+				}
 				// … and this endpoint's decoder must accept size updates up to it
 				if kv[1] > self.decMax {
 					self.decMax = kv[1]
@@ -609,6 +639,41 @@ func (r *Runner) completeBlock(op *Op, out *dirState) {
 	out.mirrorBlocks[op.Sid] = append(out.mirrorBlocks[op.Sid], blk)
 	op.ReencLen = len(blk)
 	op.ListID = out.blockList
+	op.SizeUpd = sizeUpdates(out.fullBlock)
+	if out.relayDec != nil {
+		got, err := out.relayDec.DecodeFull(out.fullBlock)
+		switch {
+		case err != nil:
+			op.DecErr = err.Error()
+			out.relayDec = nil
+		case canonList(got) != canonList(out.fields):
+			op.DecErr = "decodes to another list"
+			out.relayDec = nil
+		}
+	}
+	out.fullBlock = nil
+}
+
+// sizeUpdates: the dynamic table size updates (RFC 7541 6.3: 001 + 5-bit-prefix integer) a header
+// block begins with.
+func sizeUpdates(b []byte) []uint32 {
+	var out []uint32
+	for len(b) > 0 && b[0]&0xe0 == 0x20 {
+		v := uint64(b[0] & 0x1f)
+		b = b[1:]
+		if v == 0x1f {
+			for sh := uint(0); len(b) > 0 && sh < 35; sh += 7 {
+				c := b[0]
+				b = b[1:]
+				v += uint64(c&0x7f) << sh
+				if c&0x80 == 0 {
+					break
+				}
+			}
+		}
+		out = append(out, uint32(v))
+	}
+	return out
 }
 
 // observe post-processes the frames an endpoint received during a step: reassembles and decodes
@@ -645,6 +710,7 @@ func (r *Runner) observe(e *endpoint, in *dirState, outOfE *dirState, fs []Frame
 						outOfE.lateTable = &v
 					} else {
 						e.enc.SetMaxDynamicTableSize(v)
+						e.encAllowed = v
 					}
 				}
 			}
@@ -725,6 +791,9 @@ func (r *Runner) Do(op Op) bool {
 	}
 	werr := r.write(&op)
 	r.res.Ops = append(r.res.Ops, op)
+	if op.DecErr != "" && r.timeout > 2*time.Second {
+		r.timeout = 2 * time.Second // the decoder of the unchanged relay refuses this block: the direction is expected to stop
+	}
 	st := Step{Op: op}
 	if werr != nil {
 		st.render()
